@@ -172,6 +172,11 @@ func c03Run(c *core.Ctx, idx int) {
 		}
 		c.Count("nocap.explicit-arg")
 	}
+	if r.Chance(1, 4) {
+		// a permissive push policy must not change anything about capacity
+		s.SetPushPolicy(func(...any) error { return nil })
+		c.Count("with-permissive-push-policy")
+	}
 	var log []string
 	fulls, shrunkSinceFull, sawtooth, partial := 0, false, 0, false
 	fail := func(k, aspect, detail string) {
@@ -294,7 +299,7 @@ func init() {
 		},
 		Run: c03Run,
 		Rule: "cases = all histories of length <= 3 (quick) / <= 4 (thorough) over {Push x1/x2/x3, Insert at 0/mid/end, Pop, Remove(0), Reset, Transfer-into x1/x2/x3, Marshal-into} for k in {1,2,3}, " +
-			"plus seeded random 36-op sawtooth histories (grow past the limit with partly-fitting batches, Insert, Transfer-into, Marshal-into; shrink by Pop/Remove/Reset; grow again) for k in 1..6 and for stacks built with no / zero / negative capacity argument; " +
+			"plus seeded random 36-op sawtooth histories (grow past the limit with partly-fitting batches, Insert, Transfer-into, Marshal-into; shrink by Pop/Remove/Reset; grow again) for k in 1..6 and for stacks built with no / zero / negative capacity argument; a quarter of all cases runs under a permissive push policy (the policy-gated append path has its own capacity test); " +
 			"after every op Len<=k, Cap()==k, Avail()==k-Len, IsFull()==(Len==k), raw slice length <= raw capacity and the content (earliest-offered values kept in order) are compared with the list model. " +
 			"non-trivial = the history reaches the full state at least twice with a shrink in between AND contains a Push batch that only partly fits; distinct = hash of (configuration, op list).",
 		Assumptions: []string{
@@ -303,7 +308,7 @@ func init() {
 		},
 		Floors: func(tier string) map[string]int64 {
 			return map[string]int64{"reached-full": 1000, "partly-fitting-batch": 500, "nontrivial-histories": 200,
-				"op.TransferInto": 100, "op.MarshalInto": 100, "op.Insert": 100, "nocap.explicit-arg": 10}
+				"op.TransferInto": 100, "op.MarshalInto": 100, "op.Insert": 100, "nocap.explicit-arg": 10, "with-permissive-push-policy": 1000}
 		},
 	})
 }
